@@ -34,7 +34,7 @@ def explain(case, verdict, o, model):
 def run(tier):
     chk = vlib.Check(PROP, tier)
     vh = vlib.build_harness()
-    cases = families.all_programs(chk, depth_values=1, depth_verdict=0 if tier == "quick" else 1, gen=200 if tier == "quick" else 4000, forms=True)
+    cases = families.all_programs(chk, depth_values=1, depth_verdict=0 if tier == "quick" else 1, gen=200 if tier == "quick" else 1500, forms=True)
     obs = runs.observe(vh, cases)
     verdicts = runs.judge_runs(chk, cases, obs)
     c01.classify(chk, PROP, "c04", cases, obs, verdicts, explain)
